@@ -19,7 +19,11 @@ RULE = ("One case = one solver call on a drawn (W, b, parameters). W is m x n wi
         "int / array (a few arrays with negative entries), relaxation (0, 1.5], beta_laplace [0, 0.2], Laplacian identity / 1-D "
         "(Neumann or Dirichlet) / 2-D 4- or 8-neighbour / random, max_iterations 1..60, conv_tol in {0, 1e-8..1e-1}, plus calls "
         "that rely on the documented defaults. NNLS / LSQ: alpha log-uniform in [1e-3, 10], Tikhonov matrix None / identity / "
-        "Laplacians / random. Non-trivial: sart = at least 2 iterations were executed AND (a cell was clipped at zero, or W has a "
+        "Laplacians / random. Reuse relation: about half of the cases make 2 or 3 calls (drawn) with the SAME Python objects "
+        "(geometry matrix, measurement vector, user-supplied Laplacian / Tikhonov matrix, initial-guess array) and drawn overrides "
+        "of relaxation / beta_laplace / max_iterations resp. alpha ({} = identical repeat); every call is certified against "
+        "pristine copies of the inputs taken before the first call, and after each call every caller-owned array must be "
+        "bit-identical to its copy (`inputs-unmodified`, reported after all calls were certified). Non-trivial: sart = at least 2 iterations were executed AND (a cell was clipped at zero, or W has a "
         "zero row / zero column / is rank deficient, or the Laplacian penalty is active (beta > 0)); sart_fixed = the exact "
         "solution has zero and positive entries, or W has a zero row/column or rank < n (solution not unique); nnls = W rank "
         "deficient or with zero row/column, or an active constraint (x_i = 0 with gradient g_i > eps); lstsq = W rank deficient or "
@@ -36,6 +40,11 @@ ASSUMPTIONS = [
     "max_iterations; the second return value is the list of convergence numbers (docs say 'a float')",
     "an all-zero measurement vector (SART: ZeroDivisionError in the convergence number; NNLS: division by max(b) = 0, also for b "
     "<= 0 everywhere) is not generated: the code neither documents nor handles it (reported to the lead as an observation)",
+    "no docstring of the five solvers declares any argument to be modified in place, so geometry matrix, measurement vector, "
+    "Laplacian / Tikhonov matrix AND the initial_guess array are all subject to `inputs-unmodified`; the SART solvers do "
+    "overwrite (and return) the initial_guess array: open finding C11-sart-guess-inplace. While it is open every call gets a fresh "
+    "copy of the pristine guess (label known:guess_array_copied_per_call) and the guess array is exempt; the stored probe "
+    "passes the same array twice and fails",
     "numpy.linalg.svd / norm / dot are trusted for the certificates (gradient, residual, null-space projector)",
     "scipy.optimize.nnls raising RuntimeError('Maximum number of iterations reached') is counted as inconclusive for that case",
     "while finding C11-nnls-scipy-nonoptimal is open, nnls cases on which scipy.optimize.nnls itself (called directly on the "
@@ -67,8 +76,12 @@ REQUIRED_LABELS = [
     "sart_fixed:variant:plain", "sart_fixed:variant:constrained", "sart_fixed:beta>0",
     "nnls:active_constraint", "nnls:W:rank_deficient", "nnls:W:zero_col", "nnls:W:zero_row", "nnls:b:mixed_sign",
     "nnls:L:none", "nnls:L:random", "nnls:shape:under", "nnls:shape:over",
-    "lstsq:W:rank_deficient", "lstsq:b:zero", "lstsq:b:mixed_sign", "lstsq:residuals:empty", "lstsq:residuals:reported",
+    "lstsq:W:rank_deficient", "lstsq:b:zero", "lstsq:b:mixed_sign", "lstsq:residuals:reported",
     "svd:W:rank_deficient", "svd:b:zero", "svd:shape:under", "svd:shape:over",
+    # reuse relation: 2 and 3 calls on the same Python objects, with and without a changed parameter
+    "sart:reuse:2", "sart:reuse:3", "sart:reuse:param_changed", "sart:reuse:same_params", "sart_fixed:reuse:2", "sart_fixed:reuse:3",
+    "nnls:reuse:2", "nnls:reuse:3", "nnls:reuse:param_changed", "lstsq:reuse:2", "lstsq:reuse:3", "lstsq:reuse:param_changed",
+    "svd:reuse:2", "svd:reuse:3",
 ]
 
 U = 2.0 ** -52
@@ -163,6 +176,16 @@ _conv_tol = st.one_of(st.sampled_from([0.0, 1e-8, 1e-6, 1e-4, 1e-4, 1e-3, 1e-2, 
 _relax = st.one_of(st.just(1.0), st.floats(0.05, 1.5))
 
 
+def _reuse(draw, override):
+    """extra calls on the SAME Python objects: list of 0..2 parameter overrides ({} = identical repeat)."""
+    return [draw(override) for _ in range(draw(st.sampled_from([0, 0, 1, 1, 1, 2])))]
+
+
+_sart_override = st.fixed_dictionaries({}, optional={"relax": _relax, "beta": st.floats(0.0, 0.2), "max_it": st.integers(1, 60)})
+_fixed_override = st.fixed_dictionaries({}, optional={"relax": _relax, "max_it": st.integers(1, 60)})
+_alpha_override = st.fixed_dictionaries({}, optional={"alpha": st.floats(-3.0, 1.0).map(lambda e: 10.0 ** e)})
+
+
 @st.composite
 def sart_case(draw):
     w = draw(w_matrix())
@@ -191,6 +214,7 @@ def sart_case(draw):
             case["beta"] = draw(st.one_of(st.just(0.0), st.floats(0.0, 0.2)))
     if case["variant"] == "constrained":
         case["L"] = draw(l_spec(n, False))
+    case["reuse"] = _reuse(draw, _sart_override)
     return case
 
 
@@ -226,6 +250,7 @@ def sart_fixed_case(draw):
             w[0][0] = 1.0
     case["xstar"] = xs
     case["scalar_guess"] = bool(const is not None and draw(st.booleans()))
+    case["reuse"] = _reuse(draw, _fixed_override)
     return case
 
 
@@ -236,6 +261,7 @@ def reg_case(draw, bkinds):
     case = {"W": w, "b": draw(b_vector(w, bkinds)), "L": draw(l_spec(n, True))}
     if draw(st.integers(0, 11)) != 0:
         case["alpha"] = 10.0 ** draw(st.floats(-3.0, 1.0))
+    case["reuse"] = _reuse(draw, _alpha_override)
     return case                                 # no "alpha" key: documented default alpha = 0.01
 
 
@@ -250,7 +276,8 @@ def lstsq_case():
 @st.composite
 def svd_case(draw):
     w = draw(w_matrix())
-    return {"W": w, "b": draw(b_vector(w, ["consistent", "consistent", "random", "mixed_sign", "zero"]))}
+    return {"W": w, "b": draw(b_vector(w, ["consistent", "consistent", "random", "mixed_sign", "zero"])),
+            "reuse": _reuse(draw, st.just({}))}
 
 
 # ------------------------------------------------------------------------------------------------ helpers
@@ -383,62 +410,100 @@ def _eps(C, x, d):
 
 
 # ------------------------------------------------------------------------------------------------ run functions
-def run_sart(case, ctx):
-    W = _as_w(case)
-    m, n = W.shape
-    b = np.array(case["b"]["v"], dtype=float)
-    variant = case["variant"]
-    ctx.label("variant:" + variant, "b:" + case["b"]["kind"], "layout:" + case.get("layout", "C"))
-    degenerate, rank, _, _ = w_classes(W, ctx)
-    g = case["guess"]
-    kw = {}
-    if g is None:
-        ctx.label("guess:none")
-        x0 = np.full(n, np.exp(-1))
-    elif isinstance(g, list):
-        ctx.label("guess:array_signed" if any(v < 0 for v in g) else "guess:array")
-        x0 = np.array(g, dtype=float)
-        kw["initial_guess"] = x0.copy()            # the solver works in place on the array it is given
-    else:
-        ctx.label("guess:int" if isinstance(g, int) else "guess:float")
-        x0 = np.full(n, float(g))
-        kw["initial_guess"] = g
-    L = build_L(case["L"], n) if variant == "constrained" else None
-    if variant == "constrained":
-        ctx.label("L:" + case["L"]["kind"])
-    if case.get("defaults"):
-        ctx.label("params:defaults")
-        max_it, relax, tol = DEFAULTS["max_it"], DEFAULTS["relax"], DEFAULTS["conv_tol"]
-        beta = DEFAULTS["beta"] if variant == "constrained" else 0.0
-    else:
-        max_it, relax, tol = int(case["max_it"]), float(case["relax"]), float(case["conv_tol"])
-        kw.update(max_iterations=max_it, relaxation=relax, conv_tol=tol)
-        beta = float(case.get("beta", 0.0)) if variant == "constrained" else 0.0
-        if variant == "constrained":
-            kw["beta_laplace"] = beta
-    with ctx.cut("call"):
-        if variant == "plain":
-            x, conv = invert_sart(W, b.copy(), **kw)
-        else:
-            x, conv = invert_constrained_sart(W, L.copy(), b.copy(), **kw)
-        x = np.array(x, dtype=float)
-        conv = [float(c) for c in conv]
-    ctx.check(x.shape == (n,), "shape", "solution shape %s, expected (%d,)" % (x.shape, n))
-    ctx.check(bool(np.all(np.isfinite(x))), "finite", lambda: "non-finite solution %r" % x.tolist())
-    ctx.check(bool(np.all(x >= 0)), "nonneg", lambda: "negative entries in the solution: %r" % x.tolist())
-    ctx.check(1 <= len(conv) <= max_it, "conv-len", "convergence list of length %d with max_iterations=%d" % (len(conv), max_it))
+F_SCIPY = "C11-nnls-scipy-nonoptimal"
+F_GUESS = "C11-sart-guess-inplace"
 
+
+class Owned:
+    """The caller-owned arrays of one case.  `own()` returns the object that is handed to EVERY call of the case; its bytes are
+    recorded before the first call.  `scan()` after each call notes the first array that is no longer bit-identical; `verdict()`
+    (after all calls were certified against the pristine inputs) turns that into the `inputs-unmodified` violation."""
+
+    def __init__(self):
+        self.items, self.first_bad = [], None
+
+    def own(self, name, pristine):
+        obj = np.array(pristine, order="K", copy=True)
+        self.items.append((name, obj, obj.tobytes(), obj.shape, obj.dtype, obj.flags["F_CONTIGUOUS"]))
+        return obj
+
+    def scan(self, call_no):
+        for name, obj, raw, shape, dtype, fc in self.items:
+            if self.first_bad is None and (obj.shape != shape or obj.dtype != dtype or obj.tobytes() != raw):
+                old = np.frombuffer(raw, dtype=dtype).reshape(shape)
+                k = int(np.argmax(np.asarray(obj).ravel() != old.ravel())) if obj.shape == shape else -1
+                self.first_bad = (name, call_no, k, float(old.ravel()[k]) if k >= 0 else None,
+                                  float(np.asarray(obj).ravel()[k]) if k >= 0 else None)
+
+    def verdict(self, ctx):
+        if self.first_bad is not None:
+            ctx.fail("inputs-unmodified", "the caller's %s array was modified in place by call %d (flat index %s: %r -> %r); the "
+                     "documentation does not say it is an output" % self.first_bad)
+
+
+def _calls(case, base, ctx):
+    """parameter dicts of all calls of the case: the base call + the drawn overrides."""
+    out = [dict(base)]
+    for ov in case.get("reuse", []) or []:
+        p = dict(base)
+        p.update(ov)
+        out.append(p)
+    if len(out) > 1:
+        ctx.label("reuse:%d" % len(out))
+        ctx.label("reuse:param_changed" if any(p != out[0] for p in out[1:]) else "reuse:same_params")
+    return out
+
+
+def _sart_kw(prm, variant):
+    kw = {}
+    if "max_it" in prm:
+        kw["max_iterations"] = int(prm["max_it"])
+    if "relax" in prm:
+        kw["relaxation"] = float(prm["relax"])
+    if "conv_tol" in prm:
+        kw["conv_tol"] = float(prm["conv_tol"])
+    if variant == "constrained" and "beta" in prm:
+        kw["beta_laplace"] = float(prm["beta"])
+    return kw
+
+
+def _sart_eff(prm, variant):
+    return (int(prm.get("max_it", DEFAULTS["max_it"])), float(prm.get("relax", DEFAULTS["relax"])),
+            float(prm.get("conv_tol", DEFAULTS["conv_tol"])),
+            float(prm.get("beta", DEFAULTS["beta"])) if variant == "constrained" else 0.0)
+
+
+def _guess_sharing(case, ctx, is_array):
+    """True when the same initial-guess array object is handed to every call (and must stay unmodified)."""
+    if not is_array:
+        return False
+    if is_open(F_GUESS) and not case.get("probe"):
+        # known finding: both SART solvers iterate in place on the caller's initial_guess array (and return that very array),
+        # which the docstring does not mention.  While it is open every call gets a fresh copy of the pristine guess.
+        ctx.label("known:guess_array_copied_per_call")
+        return False
+    return True
+
+
+def _certify_sart(ctx, W, b, L, x0, variant, prm, x, conv, call_no, structural):
+    """compare one call's result with the reference iterate from the PRISTINE inputs; returns non-triviality or None."""
+    n = W.shape[1]
+    max_it, relax, tol, beta = _sart_eff(prm, variant)
+    tag = "" if call_no == 1 else " [call %d on the same objects]" % call_no
+    ctx.check(x.shape == (n,), "shape", "solution shape %s, expected (%d,)%s" % (x.shape, n, tag))
+    ctx.check(bool(np.all(np.isfinite(x))), "finite", lambda: "non-finite solution %r%s" % (x.tolist(), tag))
+    ctx.check(bool(np.all(x >= 0)), "nonneg", lambda: "negative entries in the solution: %r%s" % (x.tolist(), tag))
+    ctx.check(1 <= len(conv) <= max_it, "conv-len", "convergence list of length %d with max_iterations=%d%s" % (len(conv), max_it, tag))
     xa, ca, ia = ref_sart(W, b, x0, max_it, relax, tol, L, beta, False)
     xb, cb, ib = ref_sart(W, b, x0, max_it, relax, tol, L, beta, True)
-    xs = ia["xscale"]
-    cs = ia["cscale"]
+    xs, cs = ia["xscale"], ia["cscale"]
     if ia["margin_bad"] or ib["margin_bad"]:
         ctx.label("inconclusive:stop_ambiguous")
-        return
+        return None
     if len(ca) != len(cb) or float(np.max(np.abs(xa - xb))) > 1e-12 * xs \
             or max(abs(p - q) for p, q in zip(ca, cb)) > 1e-12 * cs:
         ctx.label("inconclusive:ill_conditioned")
-        return
+        return None
     if ia["clipped"]:
         ctx.label("clipped")
     if beta > 0:
@@ -446,71 +511,137 @@ def run_sart(case, ctx):
     ctx.label("stop:conv_tol" if len(ca) >= 2 and abs(ca[-1] - ca[-2]) < tol else "stop:max_iterations")
     ctx.label("iters:1" if len(ca) == 1 else ("iters:2" if len(ca) == 2 else "iters:3+"))
     ctx.check(len(conv) == len(ca), "iterations",
-              lambda: "stopped after %d iterations, the documented rule stops after %d (conv got %r, want %r)"
-              % (len(conv), len(ca), conv[:6], ca[:6]))
-    ctx.close(x, xa, "iterate", rtol=1e-10, scale=xs, info="(iterations=%d)" % len(ca))
-    ctx.close(conv, ca, "convergence", rtol=1e-10, scale=cs)
-    ctx.nt(len(ca) >= 2 and (ia["clipped"] or degenerate or rank < min(m, n) or beta > 0))
+              lambda: "stopped after %d iterations, the documented rule stops after %d (conv got %r, want %r)%s"
+              % (len(conv), len(ca), conv[:6], ca[:6], tag))
+    ctx.close(x, xa, "iterate", rtol=1e-10, scale=xs, info="(iterations=%d)%s" % (len(ca), tag))
+    ctx.close(conv, ca, "convergence", rtol=1e-10, scale=cs, info=tag)
+    return len(ca) >= 2 and (ia["clipped"] or beta > 0 or structural)
+
+
+def run_sart(case, ctx):
+    W0 = _as_w(case)
+    m, n = W0.shape
+    b0 = np.array(case["b"]["v"], dtype=float)
+    variant = case["variant"]
+    ctx.label("variant:" + variant, "b:" + case["b"]["kind"], "layout:" + case.get("layout", "C"))
+    degenerate, rank, _, _ = w_classes(W0, ctx)
+    L0 = build_L(case["L"], n) if variant == "constrained" else None
+    if variant == "constrained":
+        ctx.label("L:" + case["L"]["kind"])
+    owned = Owned()
+    W, b = owned.own("geometry_matrix", W0), owned.own("measurement_vector", b0)
+    L = owned.own("laplacian_matrix", L0) if L0 is not None else None
+    g = case["guess"]
+    garr = None
+    if g is None:
+        ctx.label("guess:none")
+        x0 = np.full(n, np.exp(-1))
+    elif isinstance(g, list):
+        ctx.label("guess:array_signed" if any(v < 0 for v in g) else "guess:array")
+        x0 = np.array(g, dtype=float)
+        if _guess_sharing(case, ctx, True):
+            garr = owned.own("initial_guess", x0)
+    else:
+        ctx.label("guess:int" if isinstance(g, int) else "guess:float")
+        x0 = np.full(n, float(g))
+    base = {k: case[k] for k in ("max_it", "relax", "conv_tol", "beta") if k in case}
+    if case.get("defaults"):
+        ctx.label("params:defaults")
+    nt = False
+    for call_no, prm in enumerate(_calls(case, base, ctx), 1):
+        kw = _sart_kw(prm, variant)
+        if isinstance(g, list):
+            kw["initial_guess"] = garr if garr is not None else x0.copy()
+        elif g is not None:
+            kw["initial_guess"] = g
+        with ctx.cut("call"):
+            if variant == "plain":
+                x, conv = invert_sart(W, b, **kw)
+            else:
+                x, conv = invert_constrained_sart(W, L, b, **kw)
+            x = np.array(x, dtype=float)
+            conv = [float(c) for c in conv]
+        owned.scan(call_no)
+        r = _certify_sart(ctx, W0, b0, L0, x0, variant, prm, x, conv, call_no, degenerate or rank < min(m, n))
+        nt = nt or bool(r)
+    owned.verdict(ctx)
+    ctx.nt(nt)
 
 
 def run_sart_fixed(case, ctx):
-    W = _as_w(case)
-    m, n = W.shape
+    W0 = _as_w(case)
+    m, n = W0.shape
     variant = case["variant"]
     xs = np.array(case["xstar"], dtype=float)
-    b = np.dot(W, xs)
+    b0 = np.dot(W0, xs)
     ctx.label("variant:" + variant, "layout:" + case.get("layout", "C"))
-    degenerate, rank, _, _ = w_classes(W, ctx)
-    if not np.max(b) > 0:           # cannot happen by construction; an all-zero b is outside the accepted inputs
+    degenerate, rank, _, _ = w_classes(W0, ctx)
+    if not np.max(b0) > 0:          # cannot happen by construction; an all-zero b is outside the accepted inputs
         ctx.label("skipped:zero_b")
         return
-    max_it, relax, tol = int(case["max_it"]), float(case["relax"]), float(case["conv_tol"])
+    owned = Owned()
+    W, b = owned.own("geometry_matrix", W0), owned.own("measurement_vector", b0)
+    L = None
+    if variant == "constrained":
+        beta = float(case["beta"])
+        L = owned.own("laplacian_matrix", build_L(case["L"], n))
+        ctx.label("L:" + case["L"]["kind"], "beta>0" if beta > 0 else "beta=0")
+    garr = None
     if case.get("scalar_guess"):
         ctx.label("guess:scalar")
-        guess = float(xs[0])
     else:
         ctx.label("guess:array")
-        guess = xs.copy()
-    with ctx.cut("call"):
-        if variant == "plain":
-            x, conv = invert_sart(W, b.copy(), initial_guess=guess, max_iterations=max_it, relaxation=relax, conv_tol=tol)
-        else:
-            beta = float(case["beta"])
-            L = build_L(case["L"], n)
-            ctx.label("L:" + case["L"]["kind"], "beta>0" if beta > 0 else "beta=0")
-            x, conv = invert_constrained_sart(W, L, b.copy(), initial_guess=guess, max_iterations=max_it,
-                                              relaxation=relax, beta_laplace=beta, conv_tol=tol)
-        x = np.array(x, dtype=float)
-        conv = [float(c) for c in conv]
-    ctx.check(bool(np.all(x >= 0)), "nonneg", lambda: "negative entries in the solution: %r" % x.tolist())
-    ctx.close(x, xs, "fixed-point", rtol=1e-11, scale=float(np.max(xs)),
-              info="(an exact non-negative solution given as initial guess must be returned unchanged)")
-    ctx.check(len(conv) == min(2, max_it), "fixed-point-iterations",
-              lambda: "%d iterations from an exact solution with conv_tol=%g, expected %d; conv=%r" % (len(conv), tol, min(2, max_it), conv[:5]))
-    ctx.check(all(abs(c) <= 1e-10 for c in conv), "fixed-point-convergence",
-              lambda: "convergence numbers %r are not ~0 although W x = b" % conv[:5])
+        if _guess_sharing(case, ctx, True):
+            garr = owned.own("initial_guess", xs)
+    base = {"max_it": case["max_it"], "relax": case["relax"]}
+    tol = float(case["conv_tol"])
+    for call_no, prm in enumerate(_calls(case, base, ctx), 1):
+        max_it, relax = int(prm["max_it"]), float(prm["relax"])
+        guess = float(xs[0]) if case.get("scalar_guess") else (garr if garr is not None else xs.copy())
+        with ctx.cut("call"):
+            if variant == "plain":
+                x, conv = invert_sart(W, b, initial_guess=guess, max_iterations=max_it, relaxation=relax, conv_tol=tol)
+            else:
+                x, conv = invert_constrained_sart(W, L, b, initial_guess=guess, max_iterations=max_it,
+                                                  relaxation=relax, beta_laplace=beta, conv_tol=tol)
+            x = np.array(x, dtype=float)
+            conv = [float(c) for c in conv]
+        owned.scan(call_no)
+        tag = "" if call_no == 1 else " [call %d on the same objects]" % call_no
+        ctx.check(bool(np.all(x >= 0)), "nonneg", lambda: "negative entries in the solution: %r%s" % (x.tolist(), tag))
+        ctx.close(x, xs, "fixed-point", rtol=1e-11, scale=float(np.max(xs)),
+                  info="(an exact non-negative solution given as initial guess must be returned unchanged)" + tag)
+        ctx.check(len(conv) == min(2, max_it), "fixed-point-iterations",
+                  lambda: "%d iterations from an exact solution with conv_tol=%g, expected %d; conv=%r%s"
+                  % (len(conv), tol, min(2, max_it), conv[:5], tag))
+        ctx.check(all(abs(c) <= 1e-10 for c in conv), "fixed-point-convergence",
+                  lambda: "convergence numbers %r are not ~0 although W x = b%s" % (conv[:5], tag))
+    owned.verdict(ctx)
     ctx.nt(degenerate or rank < n or (bool(np.any(xs == 0)) and bool(np.any(xs > 0))))
 
 
-def _reg_common(case, ctx):
-    W = _as_w(case)
-    n = W.shape[1]
-    b = np.array(case["b"]["v"], dtype=float)
-    L = build_L(case["L"], n)
+def _reg_setup(case, ctx):
+    W0 = _as_w(case)
+    n = W0.shape[1]
+    b0 = np.array(case["b"]["v"], dtype=float)
+    L0 = build_L(case["L"], n)
     ctx.label("b:" + case["b"]["kind"], "L:" + case["L"]["kind"])
-    kw = {}
-    if "alpha" in case:
-        alpha = float(case["alpha"])
-        kw["alpha"] = alpha
-    else:
-        alpha = DEFAULTS["alpha"]
+    owned = Owned()
+    W, b = owned.own("w_matrix", W0), owned.own("b_vector", b0)
+    L = owned.own("tikhonov_matrix", L0) if L0 is not None else None
+    base = {"alpha": case["alpha"]} if "alpha" in case else {}
+    if not base:
         ctx.label("alpha:default")
+    return W0, b0, L0, W, b, L, owned, base
+
+
+def _reg_kw(prm, L):
+    kw = {}
+    if "alpha" in prm:
+        kw["alpha"] = float(prm["alpha"])
     if L is not None:
-        kw["tikhonov_matrix"] = L.copy()
-    return W, b, L, alpha, kw
-
-
-F_SCIPY = "C11-nnls-scipy-nonoptimal"
+        kw["tikhonov_matrix"] = L
+    return kw, float(prm.get("alpha", DEFAULTS["alpha"]))
 
 
 def _kkt_ok(C, d, x, rnorm):
@@ -533,77 +664,92 @@ def _scipy_nnls_wrong(C, d):
 
 
 def run_nnls(case, ctx):
-    W, b, L, alpha, kw = _reg_common(case, ctx)
-    m, n = W.shape
-    degenerate, rank, _, _ = w_classes(W, ctx)
-    try:
-        with ctx.cut("call", allowed=(RuntimeError,)):
-            x, rnorm = invert_regularised_nnls(W.copy(), b.copy(), **kw)
-            x = np.array(x, dtype=float)
-            rnorm = float(rnorm)
-    except RuntimeError as e:
-        if "iterations" in str(e).lower():
-            ctx.label("inconclusive:nnls_maxiter")
-            return
-        ctx.fail("call", "RuntimeError: %s" % e)
-    C, d = _cert(W, b, L, alpha)
-    if is_open(F_SCIPY) and not case.get("probe") and _scipy_nnls_wrong(C, d):
-        # known finding: scipy.optimize.nnls itself returns a non-optimal point / inconsistent rnorm for the documented
-        # normalised stacked system (degenerate dual: cell seen by no ray + diagonal Tikhonov matrix)
-        ctx.label("excluded_known")
-        return
-    ctx.check(x.shape == (n,) and bool(np.all(np.isfinite(x))), "shape", lambda: "bad solution %r" % x.tolist())
-    ctx.check(bool(np.all(x >= 0)), "nonneg", lambda: "negative entries %r" % x.tolist())
-    r = np.dot(C, x) - d
-    g = np.dot(C.T, r)
-    eps, nc = _eps(C, x, d)
-    ctx.check(bool(np.all(g >= -eps)), "kkt-dual",
-              lambda: "gradient C^T(Cx-d) has entry %.6g < -eps=%.3g at %d: x is not a minimiser over x>=0 (alpha=%g)"
-              % (float(g.min()), eps, int(np.argmin(g)), alpha))
-    xm = float(np.max(x)) if n else 0.0
-    comp = np.abs(g) * x
-    ctx.check(bool(np.all(comp <= eps * xm)), "kkt-complementarity",
-              lambda: "|g_i| x_i = %.6g > eps*max(x) = %.3g at %d (g_i=%.6g, x_i=%.6g, alpha=%g)"
-              % (float(comp.max()), eps * xm, int(np.argmax(comp)), float(g[np.argmax(comp)]), float(x[np.argmax(comp)]), alpha))
-    rn = float(np.linalg.norm(r))
-    ctx.check(abs(rnorm - rn) <= 1e-8 * (nc * float(np.linalg.norm(x)) + float(np.linalg.norm(d))), "rnorm",
-              lambda: "reported residual norm %.12g, but |Cx-d| = %.12g (max(b)=%g)" % (rnorm, rn, float(b.max())))
-    active = bool(np.any((x == 0) & (g > eps)))
-    if active:
+    W0, b0, L0, W, b, L, owned, base = _reg_setup(case, ctx)
+    m, n = W0.shape
+    degenerate, rank, _, _ = w_classes(W0, ctx)
+    any_active = False
+    for call_no, prm in enumerate(_calls(case, base, ctx), 1):
+        kw, alpha = _reg_kw(prm, L)
+        tag = "" if call_no == 1 else " [call %d on the same objects]" % call_no
+        try:
+            with ctx.cut("call", allowed=(RuntimeError,)):
+                x, rnorm = invert_regularised_nnls(W, b, **kw)
+                x = np.array(x, dtype=float)
+                rnorm = float(rnorm)
+        except RuntimeError as e:
+            if "iterations" in str(e).lower():
+                ctx.label("inconclusive:nnls_maxiter")
+                owned.scan(call_no)
+                continue
+            ctx.fail("call", "RuntimeError: %s" % e)
+        owned.scan(call_no)
+        C, d = _cert(W0, b0, L0, alpha)                  # the user's problem: pristine inputs
+        if is_open(F_SCIPY) and not case.get("probe") and _scipy_nnls_wrong(C, d):
+            # known finding: scipy.optimize.nnls itself returns a non-optimal point / inconsistent rnorm for the documented
+            # normalised stacked system (degenerate dual: cell seen by no ray + diagonal Tikhonov matrix)
+            ctx.label("excluded_known")
+            continue
+        ctx.check(x.shape == (n,) and bool(np.all(np.isfinite(x))), "shape", lambda: "bad solution %r%s" % (x.tolist(), tag))
+        ctx.check(bool(np.all(x >= 0)), "nonneg", lambda: "negative entries %r%s" % (x.tolist(), tag))
+        r = np.dot(C, x) - d
+        g = np.dot(C.T, r)
+        eps, nc = _eps(C, x, d)
+        ctx.check(bool(np.all(g >= -eps)), "kkt-dual",
+                  lambda: "gradient C^T(Cx-d) has entry %.6g < -eps=%.3g at %d: x is not a minimiser over x>=0 (alpha=%g)%s"
+                  % (float(g.min()), eps, int(np.argmin(g)), alpha, tag))
+        xm = float(np.max(x)) if n else 0.0
+        comp = np.abs(g) * x
+        ctx.check(bool(np.all(comp <= eps * xm)), "kkt-complementarity",
+                  lambda: "|g_i| x_i = %.6g > eps*max(x) = %.3g at %d (g_i=%.6g, x_i=%.6g, alpha=%g)%s"
+                  % (float(comp.max()), eps * xm, int(np.argmax(comp)), float(g[np.argmax(comp)]), float(x[np.argmax(comp)]), alpha, tag))
+        rn = float(np.linalg.norm(r))
+        ctx.check(abs(rnorm - rn) <= 1e-8 * (nc * float(np.linalg.norm(x)) + float(np.linalg.norm(d))), "rnorm",
+                  lambda: "reported residual norm %.12g, but |Cx-d| = %.12g (max(b)=%g)%s" % (rnorm, rn, float(b0.max()), tag))
+        if bool(np.any((x == 0) & (g > eps))):
+            any_active = True
+    owned.verdict(ctx)
+    if any_active:
         ctx.label("active_constraint")
-    ctx.nt(degenerate or rank < min(m, n) or active)
+    ctx.nt(degenerate or rank < min(m, n) or any_active)
 
 
 def run_lstsq(case, ctx):
-    W, b, L, alpha, kw = _reg_common(case, ctx)
-    m, n = W.shape
-    degenerate, rank, _, _ = w_classes(W, ctx)
-    with ctx.cut("call"):
-        x, res = invert_regularised_lstsq(W.copy(), b.copy(), **kw)
-        x = np.array(x, dtype=float)
-        res = np.array(res, dtype=float).ravel()
-    C, d = _cert(W, b, L, alpha)
-    ctx.check(x.shape == (n,) and bool(np.all(np.isfinite(x))), "shape", lambda: "bad solution %r" % x.tolist())
-    r = np.dot(C, x) - d
-    g = np.dot(C.T, r)
-    eps, nc = _eps(C, x, d)
-    ctx.check(float(np.linalg.norm(g)) <= eps, "normal-equations",
-              lambda: "|C^T(Cx-d)| = %.6g > eps = %.3g: x does not minimise |Wx-b|^2 + alpha^2|Lx|^2 (alpha=%g)"
-              % (float(np.linalg.norm(g)), eps, alpha))
-    ctx.check(res.size <= 1, "residuals-shape", "residuals of size %d" % res.size)
-    sc = _svals(C)
-    c_def = bool(sc.size and sc[0] > 0 and sc[-1] <= 1e-7 * sc[0]) or not (sc.size and sc[0] > 0)
-    if res.size == 1:
-        ctx.label("residuals:reported")
-        rr = float(np.dot(r, r))
-        tol = 1e-8 * (nc * float(np.linalg.norm(x)) + float(np.linalg.norm(d))) ** 2
-        ctx.check(abs(float(res[0]) - rr) <= tol, "residuals",
-                  lambda: "reported residual %.12g, but |Cx-d|^2 = %.12g" % (float(res[0]), rr))
-    else:
-        ctx.label("residuals:empty")
-    if c_def:
+    W0, b0, L0, W, b, L, owned, base = _reg_setup(case, ctx)
+    m, n = W0.shape
+    degenerate, rank, _, _ = w_classes(W0, ctx)
+    c_def_any = False
+    for call_no, prm in enumerate(_calls(case, base, ctx), 1):
+        kw, alpha = _reg_kw(prm, L)
+        tag = "" if call_no == 1 else " [call %d on the same objects]" % call_no
+        with ctx.cut("call"):
+            x, res = invert_regularised_lstsq(W, b, **kw)
+            x = np.array(x, dtype=float)
+            res = np.array(res, dtype=float).ravel()
+        owned.scan(call_no)
+        C, d = _cert(W0, b0, L0, alpha)
+        ctx.check(x.shape == (n,) and bool(np.all(np.isfinite(x))), "shape", lambda: "bad solution %r%s" % (x.tolist(), tag))
+        r = np.dot(C, x) - d
+        g = np.dot(C.T, r)
+        eps, nc = _eps(C, x, d)
+        ctx.check(float(np.linalg.norm(g)) <= eps, "normal-equations",
+                  lambda: "|C^T(Cx-d)| = %.6g > eps = %.3g: x does not minimise |Wx-b|^2 + alpha^2|Lx|^2 (alpha=%g)%s"
+                  % (float(np.linalg.norm(g)), eps, alpha, tag))
+        ctx.check(res.size <= 1, "residuals-shape", "residuals of size %d" % res.size)
+        sc = _svals(C)
+        c_def = bool(sc.size and sc[0] > 0 and sc[-1] <= 1e-7 * sc[0]) or not (sc.size and sc[0] > 0)
+        if res.size == 1:
+            ctx.label("residuals:reported")
+            rr = float(np.dot(r, r))
+            tol = 1e-8 * (nc * float(np.linalg.norm(x)) + float(np.linalg.norm(d))) ** 2
+            ctx.check(abs(float(res[0]) - rr) <= tol, "residuals",
+                      lambda: "reported residual %.12g, but |Cx-d|^2 = %.12g%s" % (float(res[0]), rr, tag))
+        else:
+            ctx.label("residuals:empty")
+        c_def_any = c_def_any or c_def
+    owned.verdict(ctx)
+    if c_def_any:
         ctx.label("C:rank_deficient")
-    ctx.nt(degenerate or rank < min(m, n) or c_def)
+    ctx.nt(degenerate or rank < min(m, n) or c_def_any)
 
 
 def _svals(C):
@@ -611,35 +757,43 @@ def _svals(C):
 
 
 def run_svd(case, ctx):
-    W = _as_w(case)
-    m, n = W.shape
-    b = np.array(case["b"]["v"], dtype=float)
+    W0 = _as_w(case)
+    m, n = W0.shape
+    b0 = np.array(case["b"]["v"], dtype=float)
     ctx.label("b:" + case["b"]["kind"])
-    degenerate, rank, amb, vh = w_classes(W, ctx)
-    with ctx.cut("call"):
-        x = invert_svd(W.copy(), b.copy())
-        x = np.array(x, dtype=float)
-    ctx.check(x.shape == (n,) and bool(np.all(np.isfinite(x))), "shape", lambda: "bad solution %r (shape %s)" % (x.tolist(), x.shape))
-    r = np.dot(W, x) - b
-    g = np.dot(W.T, r)
-    eps, nc = _eps(W, x, b)
-    ctx.check(float(np.linalg.norm(g)) <= eps, "normal-equations",
-              lambda: "|W^T(Wx-b)| = %.6g > eps = %.3g: x is not a least-squares solution" % (float(np.linalg.norm(g)), eps))
+    degenerate, rank, amb, vh = w_classes(W0, ctx)
+    owned = Owned()
+    W, b = owned.own("w_matrix", W0), owned.own("b_vector", b0)
     if amb:
         ctx.label("inconclusive:min_norm_rank_ambiguous")
-    else:
-        null = vh[rank:]
-        comp = float(np.linalg.norm(np.dot(null, x))) if null.size else 0.0
-        ctx.check(comp <= 1e-8 * float(np.linalg.norm(x)), "minimum-norm",
-                  lambda: "null-space component of x is %.6g (|x| = %.6g, rank %d of n=%d): not the minimum-norm solution"
-                  % (comp, float(np.linalg.norm(x)), rank, n))
+    for call_no, _ in enumerate(_calls(case, {}, ctx), 1):
+        tag = "" if call_no == 1 else " [call %d on the same objects]" % call_no
+        with ctx.cut("call"):
+            x = invert_svd(W, b)
+            x = np.array(x, dtype=float)
+        owned.scan(call_no)
+        ctx.check(x.shape == (n,) and bool(np.all(np.isfinite(x))), "shape",
+                  lambda: "bad solution %r (shape %s)%s" % (x.tolist(), x.shape, tag))
+        r = np.dot(W0, x) - b0
+        g = np.dot(W0.T, r)
+        eps, nc = _eps(W0, x, b0)
+        ctx.check(float(np.linalg.norm(g)) <= eps, "normal-equations",
+                  lambda: "|W^T(Wx-b)| = %.6g > eps = %.3g: x is not a least-squares solution%s" % (float(np.linalg.norm(g)), eps, tag))
+        if not amb:
+            null = vh[rank:]
+            comp = float(np.linalg.norm(np.dot(null, x))) if null.size else 0.0
+            ctx.check(comp <= 1e-8 * float(np.linalg.norm(x)), "minimum-norm",
+                      lambda: "null-space component of x is %.6g (|x| = %.6g, rank %d of n=%d): not the minimum-norm solution%s"
+                      % (comp, float(np.linalg.norm(x)), rank, n, tag))
+    owned.verdict(ctx)
     ctx.nt(degenerate or rank < n)
 
 
 SUBCHECKS = {
-    "sart": Given(sart_case, run_sart, quick=500, thorough=45000),
-    "sart_fixed": Given(sart_fixed_case, run_sart_fixed, quick=200, thorough=15000),
-    "nnls": Given(nnls_case, run_nnls, quick=400, thorough=30000),
-    "lstsq": Given(lstsq_case, run_lstsq, quick=250, thorough=20000),
-    "svd": Given(svd_case, run_svd, quick=150, thorough=10000),
+    # thorough totals are 20% below DESIGN's 120 000: about half of the cases now make 2-3 certified calls (reuse relation)
+    "sart": Given(sart_case, run_sart, quick=500, thorough=36000),
+    "sart_fixed": Given(sart_fixed_case, run_sart_fixed, quick=200, thorough=12000),
+    "nnls": Given(nnls_case, run_nnls, quick=400, thorough=24000),
+    "lstsq": Given(lstsq_case, run_lstsq, quick=250, thorough=16000),
+    "svd": Given(svd_case, run_svd, quick=150, thorough=8000),
 }
